@@ -45,7 +45,8 @@ ASSUMPTIONS = [
     "(Decimal('NaN') != Decimal('NaN'))",
 ]
 RULE = ("cases are (datatype, lexical form, normalize flag), python values, or pairs of literals; forms are built from "
-        "a sign, boundary magnitudes of the datatype, leading zeros, a point/exponent, and decorations (python white "
+        "a sign, boundary magnitudes of the datatype, leading zeros, a point/exponent (decimals also with more than 28 "
+        "significant digits and a non-zero fraction, and 30-40 digit whole numbers), and decorations (python white "
         "space incl. NBSP/U+3000/U+001C, underscores, non-ASCII digits, junk); distinct by full case content; "
         "non-trivial = the form is in the XSD lexical space or is accepted by the code")
 
@@ -194,8 +195,12 @@ def gen_int_form(rng, d):
 
 
 def gen_dec_form(rng):
-    ip = rng.choice(["", "0", "1", "12", "007", "100", "9", "123456789012345678901"])
-    fp = rng.choice([None, "", "0", "5", "50", "05", "000", "125", "10"])
+    # incl. more than 28 significant digits (python's default context precision) with a non-zero fraction,
+    # and long whole numbers written as decimals
+    ip = rng.choice(["", "0", "1", "12", "007", "100", "9", "123456789012345678901",
+                     "1234567890123456789012345678901", "9" * 40, "1" + "0" * 35])
+    fp = rng.choice([None, "", "0", "5", "50", "05", "000", "125", "10",
+                     "0" * 28 + "1", "12345678901234567890123456789", "0" * 30, "5" + "0" * 29 + "7", "9" * 33])
     s = rng.choice(["", "", "-", "+"]) + ip + ("" if fp is None else "." + fp)
     r = rng.random()
     if r < 0.15:
@@ -236,6 +241,11 @@ def gen_pyval(rng):
     if r < 0.85:
         if rng.random() < 0.08:
             return rng.choice([["inf", False], ["inf", True], ["nan", False], ["nan", True]])
+        if rng.random() < 0.3:  # beyond the 28-digit context precision
+            return ["dec", rng.random() < 0.4,
+                    rng.choice([10 ** 28 + 1, 10 ** 30 + 1, 10 ** 40 + 7, 123456789012345678901234567890123,
+                                int("9" * 35), 10 ** 29, 5 * 10 ** 33 + 50]),
+                    rng.choice([0, -1, -2, -28, -29, -33, -40, -45, 1, 3])]
         return ["dec", rng.random() < 0.4, rng.choice([0, 0, 1, 5, 10, 12, 100, 125, 1050, 10 ** 25 + 1]),
                 rng.choice([0, 0, -1, -2, -3, -5, -30, 1, 2, 5, 30])]
     return ["str", gen_str_form(rng)]
@@ -287,6 +297,11 @@ class C09(Suite):
         fam = rng.choice(["num", "num", "bool", "str", "mixed"])
         if fam == "num":
             d1, d2 = rng.choice(INT_TYPES + ["decimal"] * 4), rng.choice(INT_TYPES + ["decimal"] * 4)
+            if rng.random() < 0.15:
+                a = "1." + "0" * 28 + rng.choice(["1", "2", "10"])
+                b = rng.choice([a, "1." + "0" * 28 + "1", "1", "1.0", "+01." + "0" * 28 + "10"])
+                return {"k": "eq", "d1": "decimal", "l1": a, "n1": rng.random() < 0.7,
+                        "d2": rng.choice(["decimal", "decimal", "integer"]), "l2": b, "n2": rng.random() < 0.7}
             v = rng.choice([0, 1, 1, 5, 10, 127, 128, -1, 255])
             w = v if rng.random() < 0.6 else rng.choice([0, 1, 5, 10, -1])
 
